@@ -11,7 +11,7 @@ from . import common
 
 ID = 'C14'
 LEVEL = 'exploration'
-RUNS = {'quick': 480}
+RUNS = {'quick': 2400}
 BUDGET_S = {'thorough': 600}
 RULE = ('index 0 is a finite enumeration (said plainly: not simulation): number_to_letter_id / letter_id_to_number against an '
         'independent bijective base-26 for all 475254 indexes through four letters, both cases and directions, plus 100000 random '
